@@ -18,6 +18,8 @@
 #include <cstring>
 #include <utility>
 #include <type_traits>
+#include <typeinfo>
+#include <cxxabi.h>
 
 namespace c14 {
 namespace fn = nmtools::functional;
@@ -51,6 +53,8 @@ template <class T> inline dyn_t<T> mk(const L& shape, int k, int dom = D_INT) {
 // a result is an array-like (array, view, maybe of them, number) or an operand pack (tuple of pointers to arrays / views)
 struct Res {
     bool pack = false;
+    bool nested = false;               // a pack that contains a pack (possibly inside a maybe) instead of being flat
+    std::string weird;                 // type of the first element that is neither an array-like nor a pack
     std::vector<Obs> items;
     std::vector<const void*> addr;     // address of the array for items that are passed-through operands (pointers), else nullptr
     uint64_t hash() const { uint64_t h = pack ? 77 : 79; for (auto& o : items) h = nmc::mix(h * 1099511628211ULL + o.hash()); return h; }
@@ -60,24 +64,25 @@ struct Res {
 };
 template <class T> struct is_std_tuple : std::false_type {};
 template <class... Ts> struct is_std_tuple<std::tuple<Ts...>> : std::true_type {};
-template <class E> inline void observe_item(Res& r, const E& e) {
+template <class T> constexpr bool is_pack_v = is_std_tuple<T>::value || (meta::is_tuple_v<T> && !meta::is_ndarray_v<T> && !meta::is_view_v<T>);
+template <class T> inline std::string type_of() { int st = 0; char* d = abi::__cxa_demangle(typeid(T).name(), nullptr, nullptr, &st); std::string r = d ? d : typeid(T).name(); free(d); if (r.size() > 160) r = r.substr(0, 160) + "..."; return r; }
+template <class R> inline void observe_into(Res& x, const R& r, int depth);
+template <class E> inline void observe_item(Res& r, const E& e, int depth) {
     if constexpr (std::is_pointer_v<E>) { r.items.push_back(nmc::observe(*e)); r.addr.push_back((const void*)e); }
-    else { r.items.push_back(nmc::observe(e)); r.addr.push_back(nullptr); }
+    else if constexpr (meta::is_maybe_v<E>) { if (!nm::has_value(e)) { Obs o; o.has = false; r.items.push_back(o); r.addr.push_back(nullptr); } else observe_item(r, *e, depth); }
+    else if constexpr (is_pack_v<E>) { if (depth > 0) r.nested = true; observe_into(r, e, depth + 1); }
+    else if constexpr (meta::is_num_v<E> || meta::is_ndarray_v<E> || meta::is_view_v<E> || meta::is_either_v<E>) { r.items.push_back(nmc::observe(e)); r.addr.push_back(nullptr); }
+    else { if (r.weird.empty()) r.weird = type_of<E>(); Obs o; o.has = false; r.items.push_back(o); r.addr.push_back(nullptr); }   // e.g. a functor that is still waiting for operands
+}
+template <class R> inline void observe_into(Res& x, const R& r, int depth) {
+    if constexpr (is_std_tuple<R>::value) std::apply([&](const auto&... e) { (observe_item(x, e, depth), ...); }, r);
+    else { constexpr auto N = meta::len_v<R>; meta::template_for<N>([&](auto i) { observe_item(x, nm::get<decltype(i)::value>(r), depth); }); }
 }
 template <class R> inline Res observe_any(const R& r) {
-    if constexpr (meta::is_maybe_v<R>) {
-        if (!nm::has_value(r)) { Res x; Obs o; o.has = false; x.items.push_back(o); x.addr.push_back(nullptr); return x; }
-        return observe_any(*r);
-    } else if constexpr (is_std_tuple<R>::value) {
-        Res x; x.pack = std::tuple_size_v<R> != 1;
-        std::apply([&](const auto&... e) { (observe_item(x, e), ...); }, r);
-        return x;
-    } else if constexpr (meta::is_tuple_v<R> && !meta::is_ndarray_v<R>) {
-        Res x; x.pack = true;
-        constexpr auto N = meta::len_v<R>;
-        meta::template_for<N>([&](auto i) { observe_item(x, nm::get<decltype(i)::value>(r)); });
-        return x;
-    } else { Res x; observe_item(x, r); return x; }
+    Res x;
+    if constexpr (meta::is_maybe_v<R>) { if (!nm::has_value(r)) { Obs o; o.has = false; x.items.push_back(o); x.addr.push_back(nullptr); return x; } return observe_any(*r); }
+    else if constexpr (is_pack_v<R>) { observe_into(x, r, 1); x.pack = x.items.size() != 1; return x; }
+    else { observe_item(x, r, 0); return x; }
 }
 inline bool same_value(double a, double b) { return a == b ? (std::signbit(a) == std::signbit(b) || a != 0) : (std::isnan(a) && std::isnan(b)); }
 // "" = equal
@@ -92,6 +97,8 @@ inline std::string diff_obs(const Obs& got, const Obs& want) {
     return "";
 }
 inline std::string diff_res(const Res& got, const Res& want) {
+    if (!got.weird.empty()) return "result contains an object that is neither an array nor an operand pack: " + got.weird + " (direct evaluation: " + want.str() + ")";
+    if (got.nested) return "result is a nested operand pack (a pack inside a pack), the direct evaluation gives the flat pack " + want.str();
     if (got.items.size() == 1 && want.items.size() == 1 && !got.items[0].has && !want.items[0].has) return "";
     if (got.pack != want.pack || got.items.size() != want.items.size()) return "result is " + std::string(got.pack ? "a pack of " : "a single value (") + std::to_string(got.items.size()) + "), expected " + (want.pack ? "a pack of " : "a single value (") + std::to_string(want.items.size()) + ")";
     for (size_t i = 0; i < got.items.size(); i++) {
@@ -475,4 +482,171 @@ template <class Alphabet, int N, int SLICE> struct chains {
     }
 };
 
+} // namespace c14
+
+// ================================================================================================ PART 3: extraction
+#include "nmtools/array/functional/ufuncs/add.hpp"
+#include "nmtools/array/functional/ufuncs/multiply.hpp"
+#include "nmtools/array/view/alias.hpp"
+namespace c14 {
+
+// the graph the harness builds by hand next to a nested view: one node per leaf OCCURRENCE (an aliased leaf: one node per alias id)
+// and one per operation; an operation lists its input nodes in operand order.
+struct HGraph {
+    struct Node { bool is_op; int leaf; std::vector<int> in; std::string label; };
+    std::vector<Node> nodes; int root = -1;
+    int leaf(int k) { nodes.push_back({false, k, {}, "leaf" + std::to_string(k)}); return (int)nodes.size() - 1; }
+    int op(const char* label, std::vector<int> in) { nodes.push_back({true, -1, std::move(in), label}); root = (int)nodes.size() - 1; return root; }
+    // leaves in evaluation order (depth first, operands left to right): the operand list of the extracted function
+    void operand_order(int n, std::vector<int>& out) const { const Node& x = nodes[(size_t)n]; if (!x.is_op) { out.push_back(x.leaf); return; } for (int i : x.in) operand_order(i, out); }
+    std::vector<std::pair<int, int>> edges() const { std::vector<std::pair<int, int>> e; for (size_t o = 0; o < nodes.size(); o++) if (nodes[o].is_op) for (int i : nodes[o].in) { std::pair<int, int> p{i, (int)o}; if (std::find(e.begin(), e.end(), p) == e.end()) e.push_back(p); } return e; }
+};
+// what get_compute_graph returned, read through the ct_digraph API (nodes(), nodes(id), out_edges())
+struct AGraph {
+    struct Node { long id; bool is_op; const void* addr; std::vector<long> operands; };
+    std::vector<Node> nodes; std::vector<std::pair<long, long>> edges;
+    std::string str(const std::vector<const void*>& leaves) const {
+        std::string s = "nodes:";
+        for (auto& n : nodes) { s += " " + std::to_string(n.id) + "="; if (n.is_op) { s += "op("; for (size_t i = 0; i < n.operands.size(); i++) s += (i ? "," : "") + std::to_string(n.operands[i]); s += ")"; } else { int k = -1; for (size_t i = 0; i < leaves.size(); i++) if (leaves[i] == n.addr) k = (int)i; s += k >= 0 ? "leaf" + std::to_string(k) : std::string("leaf?"); } }
+        s += " edges:"; for (auto& e : edges) s += " " + std::to_string(e.first) + "->" + std::to_string(e.second);
+        return s;
+    }
+};
+template <class G> inline AGraph read_graph(const G& g) {
+    AGraph r;
+    const auto ids = g.nodes();
+    constexpr auto N = meta::len_v<meta::remove_cvref_t<decltype(ids)>>;
+    meta::template_for<N>([&](auto i) {
+        auto id = nm::get<decltype(i)::value>(ids);
+        const auto nd = g.nodes(id);
+        using nd_t = meta::remove_cvref_t<decltype(nd)>;
+        AGraph::Node n; n.id = (long)decltype(id)::value; n.addr = nullptr; n.is_op = false;
+        if constexpr (std::is_pointer_v<nd_t>) n.addr = (const void*)nd;
+        else if constexpr (meta::is_num_v<nd_t> || meta::is_ndarray_v<nd_t>) n.addr = nullptr;
+        else {
+            n.is_op = true;
+            constexpr auto K = meta::len_v<meta::remove_cvref_t<decltype(nd.operands)>>;
+            meta::template_for<K>([&](auto j) { n.operands.push_back((long)meta::remove_cvref_t<decltype(nm::get<decltype(j)::value>(nd.operands))>::value); });
+        }
+        r.nodes.push_back(n);
+    });
+    const auto es = g.out_edges();
+    constexpr auto E = meta::len_v<meta::remove_cvref_t<decltype(es)>>;
+    meta::template_for<E>([&](auto i) {
+        auto e = nm::get<decltype(i)::value>(es);
+        r.edges.push_back({(long)meta::remove_cvref_t<decltype(nm::get<0>(e))>::value, (long)meta::remove_cvref_t<decltype(nm::get<1>(e))>::value});
+    });
+    return r;
+}
+// "" = the extracted graph equals the hand graph up to a bijection of node ids
+inline std::string compare_graphs(const AGraph& a, const HGraph& h, const std::vector<const void*>& leaves) {
+    for (size_t i = 0; i < a.nodes.size(); i++) for (size_t j = i + 1; j < a.nodes.size(); j++) if (a.nodes[i].id == a.nodes[j].id) return "two nodes share the id " + std::to_string(a.nodes[i].id);
+    auto he = h.edges();
+    std::string sizes = std::to_string(a.nodes.size()) + " nodes / " + std::to_string(a.edges.size()) + " edges, by hand " + std::to_string(h.nodes.size()) + " nodes / " + std::to_string(he.size()) + " edges";
+    if (a.nodes.size() != h.nodes.size()) return "node count: " + sizes;
+    if (a.edges.size() != he.size()) return "edge count: " + sizes;
+    size_t n = h.nodes.size();
+    std::vector<int> map(n, -1); std::vector<char> used(n, 0);   // hand node -> index of the extracted node
+    auto id_of = [&](int hn) { return a.nodes[(size_t)map[(size_t)hn]].id; };
+    std::function<bool(size_t)> rec = [&](size_t k) -> bool {
+        if (k == n) {
+            for (auto& e : he) { std::pair<long, long> want{id_of(e.first), id_of(e.second)}; if (std::find(a.edges.begin(), a.edges.end(), want) == a.edges.end()) return false; }
+            for (size_t o = 0; o < n; o++) if (h.nodes[o].is_op) { const auto& an = a.nodes[(size_t)map[o]]; if (an.operands.size() != h.nodes[o].in.size()) return false; for (size_t i = 0; i < an.operands.size(); i++) if (an.operands[i] != id_of(h.nodes[o].in[i])) return false; }
+            return true;
+        }
+        for (size_t c = 0; c < n; c++) {
+            if (used[c]) continue;
+            const auto& an = a.nodes[c]; const auto& hn = h.nodes[k];
+            if (an.is_op != hn.is_op) continue;
+            if (!hn.is_op && an.addr != leaves[(size_t)hn.leaf]) continue;
+            if (hn.is_op && an.operands.size() != hn.in.size()) continue;
+            used[c] = 1; map[k] = (int)c;
+            if (rec(k + 1)) return true;
+            used[c] = 0; map[k] = -1;
+        }
+        return false;
+    };
+    if (!rec(0)) return "no bijection of node ids maps the hand-built graph (leaf identity, operand order, edges) onto the extracted one";
+    return "";
+}
+
+// a nested-view program: build(a, b, m, axis) -> view; hand(): its graph; uses: which of the operands a(1) b(2) m(4) and axis(8) it reads;
+// CHECKS: bit mask (1 << check) of the checks the compiler accepts for the program (see the .cpp for the two rejected patterns)
+template <int CHECKS, class Build> struct xprog_t { static constexpr int checks = CHECKS; const char* name; int depth; int uses; Build build; HGraph (*hand)(); };
+template <int CHECKS, class Build> inline xprog_t<CHECKS, Build> xprog(const char* name, int depth, int uses, Build b, HGraph (*hand)()) { return {name, depth, uses, b, hand}; }
+enum { USE_A = 1, USE_B = 2, USE_M = 4, USE_AXIS = 8 };
+enum { CHK_APPLY = 0, CHK_OPERANDS = 1, CHK_GRAPH = 2 };
+
+// key: ext:<program> | check | shape a | shape b or _ | shape m or _ | axis or _
+template <class P> inline Outcome run_xprog(const P& p, const Case& c) {
+    constexpr bool GRAPH = (P::checks >> 2) & 1, APPLY = P::checks & 1;
+    long check = c.a[0][0];
+    const arr_t a = mk<long>(c.a[1], 0);
+    const arr_t b = c.a[2].empty() ? mk<long>(L{1}, 1) : mk<long>(c.a[2], 1);
+    const arr_t m = c.a[3].empty() ? mk<long>(L{1, 1}, 2) : mk<long>(c.a[3], 2);
+    int axis = c.a[4].empty() ? 0 : (int)c.a[4][0];
+    const std::vector<const void*> leaves{&a, &b, &m};
+    const auto v = p.build(a, b, m, axis);
+    const Res want = observe_any(v);
+    bool nontriv = want.all_have() && want.elements() >= 2;
+    const HGraph h = p.hand();
+    if (check == CHK_APPLY) {
+        if constexpr (APPLY) {
+            const auto f = fn::get_function_composition(v);
+            const auto ops = fn::get_function_operands(v);
+            const auto r = fn::apply(f, ops);
+            return verdict(observe_any(r), want, nontriv, "apply(get_function_composition(v), get_function_operands(v))");
+        } else nmc::die("extraction case: the function composition of this program is not instantiated");
+    }
+    if (check == CHK_OPERANDS) {
+        std::vector<int> order; h.operand_order(h.root, order);
+        const auto ops = fn::get_function_operands(v);
+        if constexpr (meta::is_maybe_v<meta::remove_cvref_t<decltype(ops)>>) { if (!nm::has_value(ops)) return want.all_have() ? Outcome::bad("rejects-valid", "get_function_operands is Nothing although the view has a value", nontriv) : Outcome::ok(false, 3); }
+        const auto& o = unwrapped(ops);
+        constexpr auto N = meta::len_v<meta::remove_cvref_t<decltype(o)>>;
+        std::vector<const void*> got;
+        meta::template_for<N>([&](auto i) { got.push_back((const void*)&deref(nm::get<decltype(i)::value>(o))); });
+        auto name = [&](const void* q) { for (size_t i = 0; i < leaves.size(); i++) if (leaves[i] == q) return std::string(1, "abm"[i]); return std::string("?(not an original leaf)"); };
+        std::string gs, ws; for (auto q : got) gs += name(q) + " "; for (int k : order) ws += std::string(1, "abm"[k]) + " ";
+        uint64_t hh = nmc::fnv(gs.data(), gs.size());
+        if (got.size() != order.size()) return Outcome::bad("wrong", "extracted operands: " + gs + "; leaves of the view in evaluation order: " + ws, nontriv, hh);
+        for (size_t i = 0; i < got.size(); i++) if (got[i] != leaves[(size_t)order[i]]) return Outcome::bad("wrong", "extracted operand " + std::to_string(i) + " is " + name(got[i]) + "; extracted: " + gs + "; leaves of the view in evaluation order: " + ws, nontriv, hh);
+        return Outcome::ok(order.size() >= 2 || nontriv, hh);
+    }
+    if (check == CHK_GRAPH) {
+        if constexpr (GRAPH) {
+            const auto g = fn::get_compute_graph(v);
+            if constexpr (meta::is_maybe_v<meta::remove_cvref_t<decltype(g)>>) { if (!nm::has_value(g)) return want.all_have() ? Outcome::bad("rejects-valid", "get_compute_graph is Nothing although the view has a value", nontriv) : Outcome::ok(false, 5); }
+            const AGraph ag = read_graph(unwrapped(g));
+            std::string gs = ag.str(leaves); uint64_t hh = nmc::fnv(gs.data(), gs.size());
+            if (getenv("C14_DUMP")) fprintf(stderr, "%s\n", gs.c_str());
+            std::string d = compare_graphs(ag, h, leaves);
+            if (!d.empty()) return Outcome::bad("wrong", d + "; extracted " + gs, true, hh);
+            return Outcome::ok(true, hh);
+        } else nmc::die("extraction case: the compute graph of this program is not instantiated");
+    }
+    nmc::die("extraction case: unknown check");
+}
+template <class Progs> inline void enumerate_xprogs(const Progs& progs, bool thorough, const nmc::Sink& emit) {
+    std::apply([&](const auto&... p) {
+        auto one = [&](const auto& pr) {
+            if (pr.depth > (thorough ? 4 : 3)) return;
+            auto emit_all = [&](const L& a, const L& b, const L& m, const L& ax) { for (long chk = 0; chk <= 2; chk++) { if (!((pr.checks >> chk) & 1)) continue; emit(Case(std::string("ext:") + pr.name, {{chk}, a, b, m, ax})); } };
+            for (auto& a : all_shapes((pr.uses & (USE_M | USE_AXIS)) ? 2 : 1, 3)) {
+                std::vector<L> bs = (pr.uses & USE_B) ? rm::companion_shapes(a) : std::vector<L>{L{}};
+                std::vector<L> ms = (pr.uses & USE_M) ? rm::matmul_rhs_shapes(a) : std::vector<L>{L{}};
+                std::vector<L> axs; if (pr.uses & USE_AXIS) { for (long x = 0; x < (long)a.size(); x++) axs.push_back(L{x}); } else axs.push_back(L{});
+                for (auto& b : bs) for (auto& m : ms) for (auto& ax : axs) emit_all(a, b, m, ax);
+            }
+        };
+        (one(p), ...);
+    }, progs);
+}
+template <class Progs> inline Outcome run_xprogs(const Progs& progs, const Case& c) {
+    std::string name = c.op.substr(4);
+    Outcome out; bool found = false;
+    std::apply([&](const auto&... p) { ((!found && name == p.name ? (found = true, out = run_xprog(p, c), 0) : 0), ...); }, progs);
+    if (!found) nmc::die("extraction case: program is not part of this unit");
+    return out;
+}
 } // namespace c14
